@@ -175,8 +175,7 @@ BUILD = {"teamBattle": build_team_battle, "predatorPrey": build_predator_prey, "
 H_CHOICES = [None, None, [1, 1], [1, 2], [3, 4], [1, 4]]
 
 
-def gen_params(rng, which, big=False, safe=False):
-    """`safe`: no configuration of the open findings C02-E2 / C02-E3 (for streams that are about something else)"""
+def gen_params(rng, which, big=False):
     if which == "teamBattle":
         side_r, side_c = (rng.randint(2, 5), rng.randint(2, 5)) if not big else (8, 8)
         teams = rng.randint(2, 4)
@@ -197,8 +196,8 @@ def gen_params(rng, which, big=False, safe=False):
             p["battle"] = [[encs[i % teams], corners[i % 4] if fixed else None, rng.choice(H_CHOICES)] for i in range(n)]
         else:
             ags = []
-            multi = not safe and rng.random() < 0.12     # some agent may strike twice at once (finding C02-E2)
-            entity = not safe and rng.random() < 0.15    # an attackable entity that is not an Agent (finding C02-E3)
+            multi = rng.random() < 0.35          # agents that may strike two (three) agents at once
+            entity = rng.random() < 0.3          # an attackable entity that is not an Agent (no reward entry)
             for i in range(n):
                 a = dict(gridw.AG_DEFAULT)
                 a["enc"] = encs[i % teams]
@@ -211,7 +210,7 @@ def gen_params(rng, which, big=False, safe=False):
                 a["attack_range"] = rng.choice([0, 1, 2])
                 a["strength"] = rng.choice([[1, 1], [1, 2], [1, 4], [3, 4]])
                 a["accuracy"] = rng.choice([[1, 1], [1, 1], [1, 2], [3, 4]])
-                a["sim_attacks"] = rng.choice([1, 2]) if multi else 1
+                a["sim_attacks"] = rng.choice([1, 2, 2, 3]) if multi else 1
                 a["init_health"] = rng.choice(H_CHOICES)
                 if "AmmoState" in p["states"] and rng.random() < 0.5:
                     a["has_ammo"], a["init_ammo"] = True, rng.randint(0, 3)
@@ -594,8 +593,18 @@ def make_case(desc, sess, ops, entries):
         if op[0] == "step":
             if prev is not None and e[1] != prev:
                 changed = True
-            if prev is not None and any(p[2] and not q[2] for p, q in zip(prev[1], e[1][1])):
-                deaths = True
+            if prev is not None:
+                died = [i for i, (p, q) in enumerate(zip(prev[1], e[1][1])) if p[2] and not q[2]]
+                if died:
+                    deaths = True
+                    if any(not sess.learning[i] for i in died):
+                        tags.append("ex-killed-entity-without-reward-entry")      # the situation of C02-E3 (repaired)
+                    if len(died) >= 2 and any(a[2] >= 2 for a in op[1]):
+                        tags.append("ex-several-killed-by-multi-attack")          # ... of C02-E2 (repaired)
+            if desc["which"] == "multiMaze" and e[2] and any(x >= 80 for _, x in e[2][0]):
+                tags.append("ex-multimaze-target-reward-accrued")                 # ... of C01-E1 (repaired)
+        if op[0] == "obs" and desc.get("scribble") and any(k == "position" for k, _ in e[0][1]):
+            tags.append("ex-position-observation-overwritten-in-place")           # ... of C09-A1 (repaired)
         if op[0] == "rew" and e[0][1] not in (0,):
             tags.append("ex-nonzero-reward-read")
         prev = e[1]
@@ -650,18 +659,13 @@ def gen_cases(rng, stream, count, quick=True):
         made += 1
 
 
-def interpret(reply, case, ledger=False):
-    """`ledger`: judge the read-and-reset clause of get_reward too (C01); C02 / C03 judge everything else"""
+def interpret(reply, case):
     model, ms, is_, pre = reply
-    core_m, full_m = ms
-    core_i, full_i = is_
-    if core_i not in (0, 1):
+    if is_ not in (0, 1):
         raise ValueError("driver could not parse the implementation's trace")
-    lawful = case.desc["which"] != "multiMaze"          # MultiMazeNavigationSim.get_reward is not read-and-reset
-    m_ok = (full_m if (ledger and lawful) else core_m) == 1
-    i_ok = (full_i if ledger else core_i) == 1
-    detail = {"pre": pre, "spec_without_ledger_clause_on_impl": core_i, "spec_on_impl": full_i,
-              "spec_without_ledger_clause_on_model": core_m, "spec_on_model": full_m}
+    m_ok = ms == 1
+    i_ok = is_ == 1
+    detail = {"pre": pre, "spec_on_impl": is_, "spec_on_model": ms}
     case.tags.append("ex-pre:%d" % pre)
     ms_ = fenc(model)
     impl = wire.dec(case.impl)
@@ -701,65 +705,6 @@ def shrink_candidates(d):
         t = op[-1] if op[0] in ("reset", "step", "obs") else None
         if t and any(t):
             yield {**d, "ops": ops[:k] + [op[:-1] + [[0] * len(t)]] + ops[k + 1:]}
-
-
-def _is_ex(case, stream):
-    return isinstance(case.desc, dict) and case.desc.get("stream") == stream
-
-
-def multimaze_ledger_finding(case, v):
-    """C01-E1: MultiMazeNavigationSim.get_reward is not read-and-reset (narrow: only the ledger clause fails, on a
-    MultiMazeNavigationSim, and the model -- which transcribes that get_reward -- agrees with the implementation)"""
-    d = v.detail or {}
-    return (_is_ex(case, "example-modelled") and case.desc.get("which") == "multiMaze" and v.impl_spec is False
-            and d.get("spec_without_ledger_clause_on_impl") == 1 and v.model == case.impl)
-
-
-def _last_step_acts(case):
-    ops = case.desc.get("ops") or []
-    k = len(wire.dec(case.impl)) - 1
-    return ops[k][1] if 0 <= k < len(ops) and ops[k][0] == "step" else []
-
-
-def array_truth_finding(case, v):
-    """C02-E2: `if not attacked_agents:` on the numpy array np.random.choice returned, two or more victims (narrow:
-    TeamBattleSim / PredatorPreyResourcesSim, the LAST call is a step that raised ValueError (`other`), some agent of
-    that step asked for two or more attacks, and the model -- which transcribes the truth test -- raises too)"""
-    d = v.detail or {}
-    return (_is_ex(case, "example-modelled") and case.desc.get("which") in ("teamBattle", "predatorPrey")
-            and v.impl_spec is False and v.model == case.impl and d.get("raised") == ["step", "other"]
-            and any(a[2] >= 2 for a in _last_step_acts(case)))
-
-
-def victim_ledger_finding(case, v):
-    """C02-E3: TeamBattleSim.step does `self.rewards[attacked_agent.id] -= 1` for a killed agent that is not a learning
-    agent (no entry in the reward dict): KeyError (narrow: TeamBattleSim built with an entity that is not an Agent, the
-    LAST call is a step that raised KeyError, the model raises too)"""
-    d = v.detail or {}
-    if not (_is_ex(case, "example-modelled") and case.desc.get("which") == "teamBattle"):
-        return False
-    p = case.desc.get("p") or {}
-    entity = any(not (a.get("observing") and (a.get("moving") or a.get("attacking"))) for a in (p.get("agents") or []))
-    return (entity
-            and v.impl_spec is False and v.model == case.impl and d.get("raised") == ["step", "keyError"])
-
-
-def position_alias_finding(case, v):
-    """C09-A1: AbsolutePositionObserver.get_obs returns {'position': agent.position} -- the agent's own array; a caller
-    that overwrites the observation in place moves the agent (narrow: the case overwrites returned observations, the
-    simulation has an AbsolutePositionObserver, the first difference between model and implementation is the WORLD
-    right after a get_obs call)"""
-    d = v.detail or {}
-    if not (_is_ex(case, "example-modelled") and case.desc.get("scribble")):
-        return False
-    if "AbsolutePositionObserver" not in ((case.desc.get("p") or {}).get("observers") or []):
-        return False
-    op = d.get("op_at_that_call") or [None]
-    return v.model != case.impl and op[0] == "obs" and d.get("differs_in") == "world"
-
-
-FINDINGS = {"C01-E1": multimaze_ledger_finding, "C02-E2": array_truth_finding, "C02-E3": victim_ledger_finding,
-            "C09-A1": position_alias_finding}
 
 
 # ----------------------------------------------------------------------------------------------
@@ -820,13 +765,6 @@ class _Logged:
         out = []
         self.quiet = True
         for a in s.al:
-            if s.which == "multiMaze":
-                try:
-                    if a.position is not None and s.sim.get_done(a.id):
-                        out.append(100)
-                        continue
-                except Exception:  # noqa: BLE001
-                    pass
             out.append(units(d[a.id]) if a.id in d else 0)
         self.quiet = False
         return out
@@ -879,9 +817,9 @@ class MgrSession:
                 ad = {s.al[a].id: s.py_action(a, m, k, f) for a, m, k, f in op[1]}
                 st, val = mgr.guarded(lambda: self.mgr.step(ad), seconds=20.0)
         if self.log.sim_raised is not None:
-            # the simulation itself raised inside the manager call (a failed reset: no cell left; a step of the
-            # findings C02-E2 / C02-E3): outside the manager model, whose simulation is total -- the history ends
-            # before this call (the direct-call stream covers it)
+            # the simulation itself raised inside the manager call (a failed reset: no cell left): outside the
+            # manager model, whose simulation is total -- the history ends before this call (the direct-call
+            # stream covers it)
             self.dead = True
             return "sim-raised", None
         stepped = len(self.log.step_log) > before
@@ -1003,15 +941,12 @@ def gen_mgr_cases(rng, count):
 
 
 def mgr_interpret(reply, case, spec_idx):
-    trace, m1, m7, i1, i7, (m1n, i1n) = reply
+    trace, m1, m7, i1, i7 = reply
     ms = [m1, m7][spec_idx]
     is_ = [i1, i7][spec_idx]
     if is_ not in (0, 1):
         raise ValueError("driver could not parse the implementation trace")
-    lawful = case.desc["which"] != "multiMaze"
-    if spec_idx == 0 and not lawful:
-        ms = m1n                                     # C01_multiMaze_partial: everything but the ledger clause
-    detail = {"spec_without_ledger_clause_on_impl": i1n, "spec_without_ledger_clause_on_model": m1n}
+    detail = {}
     ms_ = fenc(trace)
     if ms_ != case.impl:
         impl = wire.dec(case.impl)
@@ -1033,16 +968,6 @@ def mgr_shrink_candidates(d):
         yield dict(d, ops=ops[:k])
     for i in range(1, len(ops)):
         yield dict(d, ops=ops[:i] + ops[i + 1:])
-
-
-def mgr_multimaze_finding(case, v):
-    d = v.detail or {}
-    return (_is_ex(case, "example-mgr") and case.desc.get("which") == "multiMaze"
-            and v.impl_spec is False and d.get("spec_without_ledger_clause_on_impl") == 1 and v.model == case.impl)
-
-
-def c01_e1(case, v):
-    return multimaze_ledger_finding(case, v) or mgr_multimaze_finding(case, v)
 
 
 # ----------------------------------------------------------------------------------------------
@@ -1075,7 +1000,7 @@ def gen_twin_cases(rng, count):
     made = 0
     while made < count:
         which = WHICH[made % len(WHICH)]
-        p = gen_params(rng, which, safe=True)
+        p = gen_params(rng, which)
         order = rng.randrange(4)
         try:
             used = ExSession(which, p, order)
@@ -1121,7 +1046,10 @@ RULE = (" Stream `example-modelled`: real TeamBattleSim / PredatorPreyResourcesS
         "second object of the same parameters used in between; the trace (result, dumped world, reward dict after "
         "every call) is compared entry by entry with the model of the class's own step / reset / getters "
         "(lean/Abmarl/Model/Examples.lean, op `gexample`) and judged by specEx (every world WInv, every observation "
-        "in its declared space, getters change nothing, a step with in-space actions does not raise).")
+        "in its declared space, getters change nothing, rewards read-and-reset, a step with in-space actions does "
+        "not raise). In-domain since the repairs c4ff362 / afc90bd / c275832 / fce2c1d: agents that strike two or "
+        "three agents at once, killed entities without a reward entry, MultiMazeNavigationSim's ledger, callers that "
+        "overwrite the returned observations in place (15% of the cases).")
 ASSUMPTIONS = [
     "example-modelled: rewards are compared in units of 1/100 (the real float x is read as round(100 x), which must be "
     "within 1e-6; floating-point rounding of the reward sums is not modelled)",
